@@ -271,6 +271,16 @@ func run(seed int64, n int, dir string, _ []string) {
 			}
 			o.Count("pool_with_family")
 		}
+		if g.Intn(6) == 0 {
+			// one very long key text (beyond the size of any pooled key buffer) and a differently spelled twin of it:
+			// keys computed before and after it must still meet in the same buckets
+			long := "L" + strings.Repeat(string(rune('a'+g.Intn(26))), 4090+g.Intn(5000))
+			pool = append(pool, value.NewString(long), value.NewString("  "+strings.ToUpper(long)+" "))
+			if nrows > 40 {
+				nrows = 40
+			}
+			o.Count("pool_with_long_key")
+		}
 		rows := make([][]value.Primary, nrows)
 		toks := make([]string, 0, nrows*ncols)
 		for i := range rows {
@@ -417,6 +427,40 @@ func run(seed int64, n int, dir string, _ []string) {
 			o.Count("distinct_over_grouped_checks")
 		}
 
+		// an outer aggregate WITHOUT GROUP BY over a grouped derived table whose select list is exactly its source's
+		// fields: every row of the derived table is ONE row, however many records its group had — also when a
+		// WHERE leaves a single row (the whole-view grouping must not treat that row as "a group already")
+		if t%3 == 1 {
+			_ = pr.DeclareTable("g2", []string{"a", "b"}, [][]value.Primary{
+				{value.NewInteger(1), value.NewInteger(10)}, {value.NewInteger(1), value.NewInteger(10)}, {value.NewInteger(1), value.NewInteger(10)},
+				{value.NewInteger(2), value.NewInteger(20)}, {value.NewInteger(2), value.NewInteger(20)}, {value.NewInteger(3), value.NewInteger(30)}})
+			for _, f := range [][2]string{
+				{"SELECT COUNT(*), SUM(b), LISTAGG(b, ',') FROM (SELECT a, b FROM g2 GROUP BY a, b) s WHERE a = 1", "1|10|10"},
+				{"SELECT COUNT(*), SUM(b), LISTAGG(b, ',') FROM (SELECT a, b FROM g2 GROUP BY a, b) s WHERE a = 2", "1|20|20"},
+				{"WITH s AS (SELECT a, b FROM g2 GROUP BY a, b) SELECT COUNT(*), SUM(b), AVG(b) FROM s WHERE a = 1", "1|10|10"},
+				{"SELECT COUNT(*), SUM(b), MAX(a) FROM (SELECT DISTINCT a, b FROM g2 GROUP BY a, b) s WHERE b = 10", "1|10|1"},
+				{"SELECT COUNT(b) FROM (SELECT a, b FROM g2 GROUP BY a, b) s WHERE a = 1 HAVING COUNT(*) = 1", "1"},
+				{"SELECT COUNT(*), SUM(b) FROM (SELECT a, b FROM g2 GROUP BY a, b) s", "3|60"},
+				{"SELECT JSON_AGG(b) FROM (SELECT a, b FROM g2 GROUP BY a, b) s WHERE a = 1", "[10]"},
+			} {
+				v, err := pr.Query(f[0])
+				got := "E"
+				if err == nil && v.RecordLen() == 1 {
+					var cs []string
+					for c := 0; c < v.FieldLen(); c++ {
+						cs = append(cs, hc.StrOf(hc.ViewCell(v, 0, c)))
+					}
+					got = strings.Join(cs, "|")
+				} else if err == nil {
+					got = fmt.Sprintf("%d rows", v.RecordLen())
+				}
+				if got != f[1] {
+					o.Law("aggregate_over_grouped_subquery_row", map[string]interface{}{"sql": f[0], "got": got, "want": f[1]})
+				}
+				o.Count("grouped_subquery_row_checks")
+			}
+			pr.DisposeTable("g2")
+		}
 		// the same aggregates over a derived table (no hidden row id in front, the aggregated column first)
 		dv, err1 := pr.Query("SELECT LISTAGG(id, ',') AS ids, " + aggs + " FROM (SELECT v, id, " + keyList + ", w FROM t) s GROUP BY " + keyList)
 		tv, err2 := pr.Query("SELECT LISTAGG(id, ',') AS ids, " + aggs + " FROM t GROUP BY " + keyList)
